@@ -115,6 +115,15 @@ func VC17_UTF16() {
 	dec, err := ParseUtf16Var(bytes.NewBuffer(append([]byte{}, enc...)))
 	vsym.Assert(err == nil, "decoding an encoded string succeeds")
 	vsym.AssertBytesEq([]byte(dec), []byte(s), "decoding returns the original string")
+	// the two-byte NUL scan: exactly the code units up to and including the first NUL unit are
+	// taken from the reader (both concrete reader kinds the library uses), whatever follows
+	tail := vsym.BytesN("tail", 3)
+	rb := bytes.NewBuffer(append(append([]byte{}, want...), tail...))
+	vsym.AssertBytesEq(ReadNullString(rb), want, "ReadNullString returns the string with its terminator")
+	vsym.AssertBytesEq(rb.Bytes(), tail, "ReadNullString leaves what follows the terminator unread")
+	rr := bytes.NewReader(append(append([]byte{}, want...), tail...))
+	vsym.AssertBytesEq(ReadNullString(rr), want, "ReadNullString (bytes.Reader) returns the string with its terminator")
+	vsym.Assert(rr.Len() == len(tail), "ReadNullString (bytes.Reader) leaves what follows the terminator unread")
 	// input without the terminator is an error
 	_, err2 := ParseUtf16Var(bytes.NewBuffer(append([]byte{}, want[:len(want)-2]...)))
 	vsym.Assert(err2 != nil, "decoding input without the terminator is an error")
